@@ -70,6 +70,7 @@ static void task_g711 (int sub)
 	std::sort (levels.begin (), levels.end ()) ; levels.erase (std::unique (levels.begin (), levels.end ()), levels.end ()) ;
 	int slack = sub == SF_FORMAT_ULAW ? 3 : 7 ;	// low 2 / 3 bits of the 16-bit magnitude are dropped before compression
 	// ---- encode: all 65536 shorts, and their int / float / double images
+	std::vector<uint8_t> short_codes ;
 	for (int t = 0 ; t < 4 ; t++)
 	{	MemFile w ; SNDFILE *f = open_raw_write (w, sub, 0) ; if (!f) { report (c, failr ("g711_open_write", "")) ; return ; }
 		std::vector<uint8_t> buf (65536 * 8) ;
@@ -83,6 +84,10 @@ static void task_g711 (int sub)
 		if (sf_write_t (f, t, buf.data (), 65536) != 65536) { sf_close (f) ; report (c, failr ("g711_write_failed", stype_name [t])) ; return ; }
 		sf_close (f) ;
 		if (w.data.size () != 65536) { report (c, failr ("g711_write_size", std::to_string (w.data.size ()))) ; return ; }
+		// the int image x << 16 of a 16-bit value carries exactly the same sample: it must get the code the short gets
+		if (t == T_SHORT) short_codes = w.data ;
+		if (t == T_INT) for (int x = -32768 ; x <= 32767 ; x++) if (w.data [(size_t) (x + 32768)] != short_codes [(size_t) (x + 32768)])
+		{	report (c, failr ("g711_int_and_short_disagree", std::string (nm) + " input " + std::to_string (x) + ": short -> code " + std::to_string (short_codes [(size_t) (x + 32768)]) + ", int (x << 16) -> code " + std::to_string (w.data [(size_t) (x + 32768)]))) ; return ; }
 		int prev = -1000000 ;
 		for (int x = -32768 ; x <= 32767 ; x++)
 		{	int code = w.data [(size_t) (x + 32768)] ; int d = ref (code) ;
